@@ -287,3 +287,49 @@ _add(
     technique=('deterministic simulation: seeded tag-operation histories with '
                'rejected operations, lock-step model, replay'),
 )
+
+_add(
+    'C09', machine='serial', level='exploration',
+    tiers={'quick': {'count': 6000, 'budget_s': 50},
+           'thorough': {'count': 300000, 'budget_s': 840}},
+    rule=('each run: 2-6 generated values (depth <= 5, <= 40 nodes; big ints, '
+          'special floats, arbitrary str incl. lone surrogates, arbitrary bytes '
+          'incl. escape-like sequences, enums, sets, slices, named tuples, '
+          'defaultdicts, NO_VALUE, registered constant / dict-based object, dict '
+          'keys of any serializable type, shared containers, Config / Partial / '
+          'ArgFactory with positional args and tags, TaggedValues); fault-free '
+          'arm: dump, load in process and (sampled) in a second interpreter with '
+          'another PYTHONHASHSEED, canon + second document compared; policy-no '
+          'arm: a policy refusing one used symbol; damaged arm: 0-3 damages per '
+          'document (truncate, bit flips, JSON subtree dup/swap, pyref '
+          'retargeted to eval / os.system / subprocess.call / a refused stub / a '
+          'missing module, import seam failing) loaded under a restrictive '
+          'recording policy with the two policy monitors; non-trivial = >= 1 '
+          'document produced; distinct = distinct case hash'),
+    real_vs_stub=REAL + ('stub: configured callables, the recording '
+                         'PyrefPolicy, the import seam (serialization.importlib '
+                         'replaced by a recording shim), the document medium, '
+                         'the reader interpreter'),
+    assumptions=['"valid JSON" = accepted by json.loads (Python emits Infinity '
+                 '/ NaN tokens for special floats)',
+                 'in the damaged arm the no-callable-invoked monitor is not '
+                 'applied: the property quantifies it over documents produced '
+                 'by dump_json',
+                 'set members are hashable leaves; object names and set order '
+                 'in the document are canonicalised before comparing'],
+    required_probes=['round_trips', 'cross_process_reads', 'damaged_loads',
+                     'damaged_loads_returned', 'policy_refusals_under_damage'],
+    level_text=('seeded search over values x damages x import failures x '
+                'policies; lossless-or-loud decided by canon equality and a '
+                'canonicalised second document, on the reader side of a '
+                'two-interpreter exchange; the policy clause decided by two '
+                'monitors that stay on for arbitrary (damaged) documents'),
+    design_ref='DESIGN.md 3 (C09)',
+    level_note=('trusted: canon; normalise_doc; the monitors observe '
+                'importlib.import_module through the module attribute '
+                'serialization.importlib and allows_import / allows_value '
+                'through the policy object'),
+    technique=('deterministic simulation with fault injection: seeded values, '
+               'document-damaging medium, failing import seam, recording '
+               'policy monitors, second-interpreter reader, replay'),
+)
